@@ -78,6 +78,9 @@ def run(ctx):
     _grid_site(ctx, m, gates)
     _zinc_reader(ctx, m)
     _agreement(ctx, m, gates)
+    from . import _zinc
+    _zinc.version_threading(ctx, 'C10.D1', 'zincdumper')
+    _zinc.version_threading(ctx, 'C10.D1', 'jsondumper')
     _entry_paths(ctx, m)
 
 
